@@ -92,6 +92,67 @@ Example C10_schema_strategy_sites :
       (filter (fun s => String.prefix "graphql_schema_generators/" (s_file s)) site_table) = [("construct", "none")].
 Proof. vm_compute. reflexivity. Qed.
 
+(* ---- isort's section placement: the ENVIRONMENT oracle (what exists below cwd) ---- *)
+(* full statement: the import blocks of a generated module do not depend on what is on disk below cwd —
+   in particular not on whether a previous generation left the target package there *)
+Definition C10_layout_full : Prop := forall sl cwd target early imps,
+  layout false sl (gen_env cwd target false early) imps = layout false sl (gen_env cwd target true early) imps.
+
+Theorem C10_layout_regenerate_partial : forall sl cwd target early imps,
+  g_c10_isort [target] sl imps = true ->
+  layout false sl (gen_env cwd target false early) imps = layout false sl (gen_env cwd target true early) imps.
+Proof. exact layout_regenerate_partial. Qed.
+Print Assumptions C10_layout_regenerate_partial.
+
+Theorem C10_layout_partial : forall sl e1 e2 changing imps,
+  (forall m, mem_s (root_of m) changing = false -> e1 m = e2 m) -> g_c10_isort changing sl imps = true ->
+  layout false sl e1 imps = layout false sl e2 imps.
+Proof. exact layout_partial. Qed.
+
+Theorem C10_layout_regenerate_refuted : exists sl cwd target early imps,
+  layout false sl (gen_env cwd target false early) imps <> layout false sl (gen_env cwd target true early) imps.
+Proof. exact layout_regenerate_refuted. Qed.
+Print Assumptions C10_layout_regenerate_refuted.
+
+Theorem C10_layout_full_refuted : ~ C10_layout_full.
+Proof. intro H. destruct layout_regenerate_refuted as [sl [cwd [t [ea [imps D]]]]]. apply D. apply H. Qed.
+
+Theorem C10_layout_cwd_refuted : exists sl target imps,
+  layout false sl (gen_env [] target false []) imps <> layout false sl (gen_env ["pydantic"] target false []) imps.
+Proof. exact layout_cwd_refuted. Qed.
+
+(* the proposed fix (isort.Config(src_paths=())): no environment can be observed *)
+Theorem C10_layout_fs_free_independent : forall sl e1 e2 imps, layout true sl e1 imps = layout true sl e2 imps.
+Proof. exact layout_fs_free_independent. Qed.
+Print Assumptions C10_layout_fs_free_independent.
+
+(* over the site table *)
+Theorem C10_emission_env_independent : forall s, In s site_table -> env_sensitive (s_sink s) = false ->
+  forall sl e1 e2 imps, observe_env (s_sink s) sl e1 imps = observe_env (s_sink s) sl e2 imps.
+Proof. exact emission_env_independent. Qed.
+Print Assumptions C10_emission_env_independent.
+
+Theorem C10_emission_env_refuted : forall s, In s site_table -> env_sensitive (s_sink s) = true ->
+  exists sl e1 e2 imps, observe_env (s_sink s) sl e1 imps <> observe_env (s_sink s) sl e2 imps.
+Proof. exact emission_env_refuted. Qed.
+
+(* the environment-sensitive rows: the two isort.code calls in their default-configuration form (the rows of
+   the proposed fixed form are in the table too and are not sensitive) *)
+Example C10_env_sensitive_sites : env_sensitive_sites =
+  [("utils.py", "ast_to_str", "isort.code(code)");
+   ("contrib/extract_operations.py", "ExtractOperationsPlugin._module_to_str", "isort.code(code_with_formatted_strings)")].
+Proof. vm_compute. reflexivity. Qed.
+
+Example C10_layout_runs :
+  let early := ["my_client.scalars_impl"] in
+  layout false ["typing"] (gen_env [] "my_client" false early) imps_selfimport = [["typing"]; ["my_client.scalars_impl"; "pydantic"]] /\
+  layout false ["typing"] (gen_env [] "my_client" true early) imps_selfimport = [["typing"]; ["pydantic"]; ["my_client.scalars_impl"]] /\
+  layout false ["typing"] (gen_env [] "my_client" false []) imps_selfimport = [["typing"]; ["pydantic"]; ["my_client.scalars_impl"]] /\
+  layout true ["typing"] (gen_env [] "my_client" true early) imps_selfimport = [["typing"]; ["my_client.scalars_impl"; "pydantic"]] /\
+  g_c10_isort ["my_client"] ["typing"] imps_selfimport = false /\
+  g_c10_isort ["my_client"] ["typing"] [(0, "typing"); (0, "pydantic"); (1, "my_client")] = true.
+Proof. vm_compute. repeat split. Qed.
+
 (* ---- directory listing; both strategies ---- *)
 Theorem C10_load_dir_independent : forall c1 c2 files,
   NoDup (map fst files) -> load_dir c1 files = load_dir c2 files.
